@@ -374,6 +374,12 @@ func (w *World) wire() {
 			}
 		case "socket.MaybeUpgrade.enter":
 			w.Gate.Watch(args[1])
+		case "wt.nilSession.CloseWithError":
+			// stands in for the QUIC session: closing it tears the stream down
+			if st, ok := args[0].(*fakenet.Stream); ok {
+				w.Tap.Add(Event{Kind: "wt:session-close", Str: fmt.Sprintf("code %v %q", args[1], args[2])})
+				st.CloseBoth()
+			}
 		}
 		if w.OnHook != nil {
 			w.OnHook(point, args)
@@ -389,6 +395,13 @@ func (w *World) Socket(n int) engine.Socket {
 		return nil
 	}
 	return w.Sockets[w.SockOrder[n]]
+}
+
+// SocketIDs returns the ids of the announced sessions in order.
+func (w *World) SocketIDs() []string {
+	w.mu.Lock()
+	defer w.mu.Unlock()
+	return append([]string(nil), w.SockOrder...)
 }
 
 func (w *World) SocketByID(sid string) engine.Socket {
